@@ -129,6 +129,7 @@ func caseC06(c *Ctx) {
 		forest[0].Kids = append(forest[0].Kids, &MNode{Name: strings.Repeat("n", 300)})
 	}
 	restricted := c.Chance(1, 3)
+	dotdot := c.Chance(1, 8)
 	sp := genSpelling(c, false)
 	doc, _ := spell(c, forest, sp)
 	nNodes := 0
@@ -161,6 +162,11 @@ func caseC06(c *Ctx) {
 			target = filepath.Join(j, "plainfile", "sub")
 		default:
 			os.MkdirAll(target, 0o755)
+			if dotdot {
+				// the same directory, written with a ".." element
+				os.MkdirAll(filepath.Join(j, "side"), 0o755)
+				target = j + "/side/../target"
+			}
 			os.WriteFile(filepath.Join(target, "zz-bystander.txt"), []byte("keep"), 0o644)
 			os.MkdirAll(filepath.Join(target, "zz-bystander-dir", "x"), 0o755)
 		}
@@ -207,7 +213,7 @@ func caseC06(c *Ctx) {
 		if out.LateEffects != "" {
 			fail("C06:effects-after-nil-return:"+mode, "the call returned nil and afterwards its goroutines still performed %s", out.LateEffects)
 		}
-		rel, _ := filepath.Rel(d.Jail, d.Target)
+		rel, _ := filepath.Rel(d.Jail, filepath.Clean(d.Target))
 		rel = filepath.ToSlash(rel)
 		bm, am := snapMap(before), snapMap(after)
 		// nothing that existed before may change or disappear
@@ -303,12 +309,14 @@ func caseC06(c *Ctx) {
 	if i, ok := c.Param("i"); ok {
 		e, _ := c.Param("errno")
 		s, _ := c.Param("sticky")
-		faults = []flt{{i, errnos[e%len(errnos)], s == 1}}
+		faults = []flt{{i, errnosAll[e%len(errnosAll)], s == 1}}
 	} else if !massive {
 		for i := 0; i < nOps; i++ {
 			for _, e := range errnos {
 				faults = append(faults, flt{i, e, false}, flt{i, e, true})
 			}
+			// errnos the code might be tempted to tolerate
+			faults = append(faults, flt{i, syscall.EEXIST, false}, flt{i, syscall.ENOTDIR, false})
 		}
 	} else {
 		for i := 0; i < nOps; i++ {
@@ -341,8 +349,10 @@ func caseC06(c *Ctx) {
 	c.st.Sample(mode+"/"+st.kind, map[string]any{"mode": mode, "op": op.String(), "forest": forestString(forest), "state": st.kind, "disk_ops_fault_free": nOps, "faults_enumerated": len(faults)})
 }
 
+var errnosAll = append(append([]syscall.Errno(nil), errnos...), syscall.EEXIST, syscall.ENOTDIR)
+
 func indexErrno(e syscall.Errno) int {
-	for i, x := range errnos {
+	for i, x := range errnosAll {
 		if x == e {
 			return i
 		}
@@ -475,7 +485,7 @@ func caseC08(c *Ctx) {
 			all = append(all, r.Paths("")...)
 		}
 		p := all[c.Draw(len(all))]
-		switch c.Draw(4) {
+		switch c.Draw(6) {
 		case 0:
 			os.RemoveAll(filepath.Join(target, p))
 			hist = append(hist, "external: rm -r "+p)
@@ -493,6 +503,17 @@ func caseC08(c *Ctx) {
 		case 3:
 			os.MkdirAll(filepath.Join(target, fmt.Sprintf("unrelated%d", e), "sub"), 0o755)
 			hist = append(hist, "external: mkdir unrelated (outside every root)")
+		case 4:
+			os.RemoveAll(filepath.Join(target, p))
+			if os.MkdirAll(filepath.Dir(filepath.Join(target, p)), 0o755) == nil {
+				os.WriteFile(filepath.Join(target, p), []byte("now a file"), 0o644)
+				hist = append(hist, "external: replaced "+p+" by a regular file")
+			}
+		case 5:
+			if fi, err := os.Stat(filepath.Join(target, p)); err == nil && fi.IsDir() {
+				os.Symlink("/nonexistent-target", filepath.Join(target, p, fmt.Sprintf("link%d", e)))
+				hist = append(hist, "external: dangling symlink under "+p)
+			}
 		}
 	}
 	// ---- step 3: the tree to verify (the same, or edited)
